@@ -65,6 +65,14 @@ func cnfGens() []Gen {
 			m := int(float64(n)*4.26) + r.Range(-n/4, n/4)
 			return makeCnfCase(r, genKSat(r, n, m, 3), 0)
 		}},
+		{Name: "3sat-restarts", Weight: 2, Make: func(r *Rng, tier string) interface{} {
+			n := r.Range(90, 130)
+			m := int(float64(n)*4.26) + r.Range(-n/8, n/8)
+			c := makeCnfCase(r, genKSat(r, n, m, 3), 0)
+			c.Front = "slice"
+			c.NbVars = maxVarCnf(c.Clauses)
+			return c
+		}},
 		{Name: "2sat-mixed", Weight: 5, Make: func(r *Rng, tier string) interface{} {
 			n := r.Range(4, 14)
 			cnf := genKSat(r, n, r.Range(n, 3*n), 2)
@@ -160,8 +168,8 @@ func solveCnf(c *CnfCase, certified bool, nbMax int) solveRun {
 	nAn := 0
 	s.VerifSetAnalyzeHook(func(a solver.VerifAnalysis) {
 		nAn++
-		if nAn <= 12 || nAn%40 == 0 { // the first analyses and a thin sample of the later ones
-			if len(res.analyses) < 40 {
+		if nAn <= 12 || nAn%25 == 0 { // the first analyses and a thin sample of the later ones
+			if len(res.analyses) < 60 {
 				res.analyses = append(res.analyses, a)
 			}
 		}
@@ -392,11 +400,41 @@ func analysisDiff(o *Oracle, oc *Outcome, r *solveRun, entry string) {
 	}
 	for i := range r.analyses {
 		a := &r.analyses[i]
+		if len(a.Dangling) > 0 {
+			// the analysed state of GS.Analyze has antecedents for trail entries only: a variable that
+			// is not assigned must not keep one (it would be used when the variable is bound again)
+			oc.Fail("corr", "analyze-invariant", entry, "at conflict %d the unassigned variables %v still have an antecedent recorded", i, a.Dangling)
+			return
+		}
 		q, want := analysisQuery(a)
 		got := o.Ask(q)
 		oc.Corr++
 		if got != want {
 			oc.Fail("corr", "analyze-mirror", entry, "learnClause returned %q, the Lean mirror GS.Analyze %q on %s", want, got, q)
+			return
+		}
+		// the hypotheses of analyze_sound_cnf, checked on the real state: distinct variables,
+		// monotone levels, every antecedent contains its literal and is otherwise false earlier
+		// on the trail, reason-less literals of the level are the decision, conflict well formed
+		if (i >= 3 && i%4 != 0) || len(a.Trail) > 160 {
+			continue // the invariant check is quadratic in the trail: first snapshots of a run only
+		}
+		// repeated unit clauses of the input sit several times on the trail (harmless): the
+		// hypotheses are checked on the trail without repetitions, for which the mirror must
+		// give the same answer
+		dq, _ := analysisQuery(dedupTrail(a))
+		if dq != q {
+			if again := o.Ask(dq); again != got {
+				oc.Fail("corr", "analyze-invariant", entry, "removing repeated trail entries changes the analysis: %q vs %q", got, again)
+				return
+			}
+		}
+		inv := o.Ask("analyze_inv" + strings.TrimPrefix(dq, "analyze"))
+		if a.Lvl == 1 && inv == "inv 1 1 0 1" {
+			inv = "inv 1 1 1 1" // at level 1 the reason-less literals are the top-level facts (FactsEntailed), not decisions
+		}
+		if inv != "inv 1 1 1 1" {
+			oc.Fail("corr", "analyze-invariant", entry, "the solver state at a conflict does not meet the hypotheses of GS.Analyze.analyze_sound_cnf (%s: trailInv reasonsCnf decisionsOk conflOk) on %s", inv, q)
 			return
 		}
 		if len(a.Learned) > 2 {
@@ -515,4 +553,23 @@ func parseSliceDiff(o *Oracle, oc *Outcome, c *CnfCase) {
 	if got != want {
 		oc.Fail("corr", "parseslice-mirror", "solver.ParseSlice", "Go parsed to %q, the Lean mirror GS.Simplify.parseSlice to %q", got, want)
 	}
+}
+
+
+// dedupTrail drops trail entries that repeat an earlier entry's literal.
+func dedupTrail(a *solver.VerifAnalysis) *solver.VerifAnalysis {
+	seen := map[int]bool{}
+	b := *a
+	b.Trail, b.Levels, b.Reasons, b.Assumed = nil, nil, nil, nil
+	for i, l := range a.Trail {
+		if seen[l] {
+			continue
+		}
+		seen[l] = true
+		b.Trail = append(b.Trail, l)
+		b.Levels = append(b.Levels, a.Levels[i])
+		b.Reasons = append(b.Reasons, a.Reasons[i])
+		b.Assumed = append(b.Assumed, a.Assumed[i])
+	}
+	return &b
 }
